@@ -1,4 +1,5 @@
 """Checks C07 (format→parse round trip), C08 (format renders what lookup reports), C09 (parse)."""
+import re
 import concurrent.futures
 from .common import (align_zone_lines, Check, canon, ub_site, enclosing_function, run_lines, I64MIN, I64MAX, NCPU)
 from . import civil as C
@@ -18,7 +19,11 @@ THEOREMS = {'C07': ['Cctz.C07.int_roundtrip', 'Cctz.C07.field2_roundtrip', 'Cctz
                     'Cctz.C08.percent', 'Cctz.C08.rfc3339', 'Cctz.C08.format_safe',
                     'Cctz.C08Lex.toTM', 'Cctz.C08Lex.format_follows_spec', 'Cctz.C08Lex.format_ok'],
             'C09': ['Cctz.C09.constants', 'Cctz.C09.parseInt_spec', 'Cctz.C09.parseInt_counterexample', 'Cctz.C09.field_ranges', 'Cctz.C09.subseconds',
-                    'Cctz.C09.offset', 'Cctz.C09.percent_s', 'Cctz.C09.parse_safe']}
+                    'Cctz.C09.offset', 'Cctz.C09.percent_s', 'Cctz.C09.parse_safe',
+                    'Cctz.C09Denote.consumed', 'Cctz.C09Denote.percent_s', 'Cctz.C09Denote.date_exists', 'Cctz.C09Denote.instant_offset', 'Cctz.C09Denote.instant_zone',
+                    'Cctz.C09Denote.subseconds', 'Cctz.C09Denote.offset_complete', 'Cctz.C09Denote.out_of_range', 'Cctz.C09Denote.zone_complete', 'Cctz.C09Denote.instant_general',
+                    'Cctz.C09Denote.no_flags', 'Cctz.C09Denote.no_flags_final', 'Cctz.C09Denote.seconds_le_60', 'Cctz.C09Denote.week_instant', 'Cctz.C09Denote.seconds_61_rejected',
+                    'Cctz.C09Denote.seconds_61_no_overflow', 'Cctz.C09Denote.date_exists_needs_no_percent_s']}
 hx = Z.hx
 
 
@@ -392,7 +397,7 @@ FRAC_CASES = [(b'%E*S', b'05.'), (b'%E3S', b'05.'), (b'%H:%M:%E*S', b'20:21:05.'
 
 
 def run_C09(chk):
-    chk.prepare_model('Cctz.Properties.C09', THEOREMS['C09'])
+    chk.prepare_model(['Cctz.Properties.C09', 'Cctz.Properties.C09Denote'], THEOREMS['C09'])
     exe = chk.harness('san')
     scale = chk.tier if not (chk.broken or chk.degraded) else 'thorough'
     if exe is None or not getattr(chk, 'driver_ok', False):
@@ -478,6 +483,21 @@ def run_C09(chk):
                 fb = fmt.encode() + b' ' + form + lit
                 tb = build(fields).encode() + b' ' + otxt + lit
                 b.append('parse %s %s %s' % (zid, hx(fb), hx(tb))); m.append(('valid', tuple(fields), True, offv, fb, tb))
+        # ':60' with a fraction, whichever conversion reads the fraction: 60.x is the start of the next minute, the fraction is dropped
+        for fb, suffix in ((b'%Y-%m-%d %H:%M:%S.%E*f', b'.25'), (b'%Y-%m-%d %H:%M:%S.%E3f', b'.999'), (b'%Y-%m-%d %H:%M:%E*S', b'.5'), (b'%Y-%m-%d %H:%M:%E6S', b'.999999'),
+                           (b'%Y-%m-%d %H:%M:%S %E*f', b' 75')):
+            for _ in range(2):
+                fx = list(C.valid_fields(rng, year=rng.randrange(1971, 2100))); fx[5] = 59
+                if fx[4] == 59: fx[4] = 58
+                tb = ('%s-%02d-%02d %02d:%02d:60' % (year_str(fx[0]), fx[1], fx[2], fx[3], fx[4])).encode() + suffix
+                b.append('parse %s %s %s' % (zid, hx(fb), hx(tb))); m.append(('leap', tuple(fx), False, 0, fb, tb))
+        # a seconds value beyond the leap second, read by a conversion left to strptime (finding F20): not normalised, rejected
+        for fb, tb in ((b'%Y-%m-%d %T %Ez', b'2016-12-31 12:00:61 +00:00'), (b'%Y-%m-%d %T', b'9223372036854775807-12-31 23:59:61'), (b'%Y-%m-%d %T', b'2016-12-31 23:59:61'),
+                       (b'%Y-%m-%d %H:%M:%OS', b'2016-06-30 23:59:61'), (b'%D %T', b'12/31/16 23:59:61')):
+            b.append('parse %s %s %s' % (zid, hx(fb), hx(tb))); m.append(('must-fail', None, False, 0, fb, tb))
+        # %s together with a date that does not exist (finding F22)
+        for fb, tb in ((b'%Y-%m-%d %s', b'2013-09-31 5'), (b'%s %Y-%m-%d', b'86400 2023-02-29'), (b'%H:%M %s', b'24:61 7')):
+            b.append('parse %s %s %s' % (zid, hx(fb), hx(tb))); m.append(('must-fail-percent-s', None, False, 0, fb, tb))
         # int64 limits and %s
         for sv in (I64MIN, I64MAX, I64MIN + 1, 0, -1):
             b.append('parse %s %s %s' % (zid, hx(b'%s'), hx(str(sv).encode()))); m.append(('percent-s', sv, False, 0, b'%s', str(sv).encode()))
@@ -522,6 +542,12 @@ def run_C09(chk):
                 else:
                     good += 1
                 continue
+            if kind == 'must-fail-percent-s':
+                if o != 'fail':
+                    chk.report('parse(%r, %r) = `%s` although the date / time in the text does not exist (a %%s in the format makes parse ignore everything else)' % (fmt_b, text_b, o),
+                               {'op': l, 'implementation': o}, sig='parse %s ignores invalid fields')
+                else: good += 1
+                continue
             if kind in ('out-of-range', 'must-fail'):
                 if o != 'fail':
                     chk.report('parse(%r, %r) = `%s` although a field is outside its documented range / the date does not exist / the value does not fit' % (fmt_b, text_b, o), {'op': l, 'implementation': o}, sig='parse accepts out-of-range')
@@ -537,7 +563,7 @@ def run_C09(chk):
                 want = 'ok %d 0' % x if I64MIN <= x <= I64MAX else 'fail'
             else:
                 fl = list(fields)
-                if '%S' not in fmt_b.decode(): fl[5] = 0
+                if not re.search(r'%(E(\*|\d+))?S', fmt_b.decode()): fl[5] = 0
                 x = C.sec_num(tuple(fl))
                 if kind == 'leap': x += 1
                 if use_off:
